@@ -60,22 +60,31 @@ def _paths(lines):
 
 def _kinds(lines):
     """tablet-backed cases (non-empty ones) and Q cases that observed a non-zero shard"""
-    t = tne = shard = 0
+    t = tne = tre = shard = chained = dupq = 0
     for ln in lines:
         if ln.startswith("T "):
             t += 1
-            tne += ln.split("|")[1].split()[0] != "0"
+            ne = ln.split("|")[1].split()[0] != "0"
+            tne += ne
+            tre += ne and ln.split("|")[0].split()[4] != "_"
         elif ln.startswith("Q "):
             o = ln.split("|")[1].split()
             shard += len(o) > 9 and any(x not in ("0", "-") for x in o[9].split(","))
-    return {"tablet_set_cases": t, "tablet_set_cases_nonempty": tne, "token_ring_cases_with_a_nonzero_shard": shard}
+            f = ln.split("|")[0].split()
+            chained += f[4].startswith("N") and f[5] == "_"
+            dupq += _dup(ln)
+    return {"tablet_set_cases": t, "tablet_set_cases_nonempty": tne, "tablet_set_cases_nonempty_dc_restricted": tre,
+            "token_ring_cases_with_a_nonzero_shard": shard, "unrestricted_nts_cases": chained,
+            "cases_on_rings_with_a_repeated_token": dupq}
 
 def _post(lines, verdicts):
     out = []
     if len(lines) >= 20000:
         k = _kinds(lines)
-        for key, floor in (("tablet_set_cases", min(len(lines) // 20, 30000)), ("tablet_set_cases_nonempty", min(len(lines) // 100, 8000)),
-                           ("token_ring_cases_with_a_nonzero_shard", len(lines) // 10)):
+        for key, floor in (("tablet_set_cases", min(len(lines) // 20, 20000)), ("tablet_set_cases_nonempty", min(len(lines) // 100, 5000)),
+                           ("tablet_set_cases_nonempty_dc_restricted", min(len(lines) // 300, 1500)),
+                           ("token_ring_cases_with_a_nonzero_shard", len(lines) // 10),
+                           ("unrestricted_nts_cases", len(lines) // 10), ("cases_on_rings_with_a_repeated_token", len(lines) // 100)):
             if k[key] < floor:
                 out.append(("diff", lines[0], f"diff generator floor: {key}={k[key]} < {floor}"))
     member_only = sum(1 for ln in lines if " M:" in ln.split("|", 1)[-1])
@@ -117,11 +126,11 @@ SPEC = {
     "post": _post,
     "search_n": 400000,
     "rule": ("seeded topologies: 1..12 nodes x 1..3 datacenters x 1..4 racks (datacenter-less and rack-less nodes, "
-             "nodes without tokens, 1..8 vnodes, 1 ring in 6 with a token shared by nodes of different datacenters), "
+             "nodes without tokens, 1..8 vnodes; in 1 ring in 6 a token may be shared by nodes of different datacenters - about 1 ring in 12 really has one), "
              "0..4 registered (precomputed) keyspace strategies with RF 0..nodes+2 incl. datacenters absent from the ring "
              "and ring datacenters absent from the strategy; queries = registered strategies, RF variations of them and fresh "
              "ones x {unrestricted, every ring datacenter, absent datacenters} x every ring token, token-1, token+1 and the "
-             "extremes (quick tier: 10 token points per ring sampled, thorough: 120, restricted queries sampled 1 in 3). Kind Q: one line = one "
+             "extremes (quick tier: 10 token points per ring sampled and datacenter-restricted queries sampled 1 in 3; thorough: 120 points, all restrictions). Kind Q: one line = one "
              "(ring, precomputed set, strategy, restriction, token) with len, into_iter, nth(0..len+1), choose for every "
              "scripted index, choose_filtered, into_replicas_ordered, get_token_endpoints, three interleavings of next()/nth(n) with size_hint() before and after every operation, the shards yielded (nodes with and without sharder) and the answer of a ClusterState "
              "built without keyspaces. Kind T (per topology): 1..4 tablets learnt through the real update_tablets (overlapping ones, unknown hosts), queries x {unrestricted, ring datacenters, absent datacenter} x tokens inside / at the borders of / between tablets: len, into_iter, nth, choose, ordered view and one next/nth interleaving with size_hint, all with the tablets' shards. non-trivial = ring not empty; distinct = distinct case lines"),
@@ -134,7 +143,7 @@ SPEC = {
         "the only hypothesis on the ring is sorted_weak (what TokenRing::new produces, C04_ring); tokens may repeat: the walk starts at the first member with token >= t and members sharing a token keep insertion order",
         "NTS strategy maps have one entry per datacenter (HashMap)",
         "random index of ReplicaSet::choose is an oracle: C04_views_choose holds for every index",
-        "tablets-based tables are outside C04 (C15)",
+        "the tablet map behind a tablet-backed replica set is C15's model (Model/Tablets.v); C04 covers the views of the set",
     ],
     "extra_coverage": _extra,
 }
